@@ -76,7 +76,7 @@ def customFlattenC (reg : Reg) (x : PyObj) (ps : List (Prog FlatOut)) : Prog Fla
     | .custom co =>
       if co.numOut != 2 && co.numOut != 3 then .err .runtime
       else match co.children with
-        | Option.none => .err .runtime
+        | Option.none => .err .type_
         | some _ =>
           (seqC ps).bind fun body =>
             let arity := ps.length
